@@ -557,7 +557,7 @@ def wsdl_cfgs(q):
         # back (C04 counts that under its reference-struct exclusion), and here it would fail every response
         ("wsdl", gen.cfg_with(files=(1, 3), wsdl=True, quarantine=q, complex_per_file=(0, 2), simple_per_file=(0, 2), elements_per_file=(0, 1),
                               attr_named_simple=False, avoid_nested_same_name=True, p_inline_schemas=0.4)),
-        ("wsdl-keywords", gen.cfg_with(files=(1, 2), wsdl=True, p_inline_schemas=0.3, quarantine=q, keyword_rate=0.3, complex_per_file=(0, 2), simple_per_file=(0, 2),
+        ("wsdl-keywords", gen.cfg_with(files=(1, 2), wsdl=True, p_inline_schemas=0.3, quarantine=q, keyword_rate=0.3, p_prelude_op_name=0.35, complex_per_file=(0, 2), simple_per_file=(0, 2),
                                        elements_per_file=(0, 1), attr_named_simple=False, avoid_nested_same_name=True)),
         ("wsdl-headers", gen.cfg_with(files=(1, 3), wsdl=True, quarantine=q, headers=(1, 3), p_parts_attr=0.3, complex_per_file=(0, 1), p_part_element_cross=0.5, p_inline_schemas=0.4,
                                       simple_per_file=(0, 2), elements_per_file=(0, 1), ops=(1, 3), attr_named_simple=False, avoid_nested_same_name=True)),
@@ -1244,6 +1244,8 @@ def sig_c16(f):
         return f"C16|auth|configured={f['configured']}"
     if r == "value-for-failure":
         return f"C16|value-for-failure|scenario={f['scenario']}"
+    if r == "response-value":
+        return f"C16|returned-value-differs-from-the-reply|scenario={f['scenario']}"
     if r == "error-for-success":
         return f"C16|error-for-success|scenario={f['scenario']}|kind={f.get('kind')}"
     if r in ("call-did-not-complete", "runtime-hang", "runtime-crash"):
